@@ -95,7 +95,7 @@ func c12Gen(rt *rapid.T) c12Scenario {
 	sc := c12Scenario{Cfg: cfg, Ops: ops, Limit: limit, OnlyPos: -1, OnlyFault: -1}
 	nf := rapid.IntRange(1, 3).Draw(rt, "nfaults")
 	for i := 0; i < nf; i++ {
-		f := c12Fault{Kind: rapid.SampledFrom([]string{"reset", "reset", "sclose"}).Draw(rt, "fkind"), Side: rapid.IntRange(0, 1).Draw(rt, "fside"),
+		f := c12Fault{Kind: rapid.SampledFrom([]string{"reset", "reset", "sclose", "reset-noticed-by-closer-first"}).Draw(rt, "fkind"), Side: rapid.IntRange(0, 1).Draw(rt, "fside"),
 			C: rapid.IntRange(0, cfg.NumConn-1).Draw(rt, "fconn"), Class: rapid.IntRange(0, 4).Draw(rt, "fclass")}
 		if f.Kind == "sclose" && limit == 0 {
 			// session Close racing with other calls in the same step
@@ -247,6 +247,27 @@ func c12RunOne(t *testing.T, sc c12Scenario, pos int, f c12Fault) (labels []stri
 				return
 			}
 			verr = r.step(rigOp{K: "reset", C: li})
+		case "reset-noticed-by-closer-first":
+			// the connection(s) were reset, and the first to notice is a Session.Close whose closing notice fails to be
+			// written; the receiving goroutines (and the peer) see the reset a moment later. Class even: every
+			// connection of the session was reset (the path died), odd: only connection C
+			var lis []int
+			for li := range r.links {
+				if f.Class%2 == 0 || li == f.C%len(r.links) {
+					lis = append(lis, li)
+				}
+			}
+			for _, li := range lis {
+				r.links[li].BreakWrites(dirOf(f.Side))
+			}
+			if verr = r.step(rigOp{K: "sclose", Side: f.Side}); verr != nil {
+				return
+			}
+			for _, li := range lis {
+				if verr = r.step(rigOp{K: "reset", C: li}); verr != nil {
+					return
+				}
+			}
 		default:
 			verr = r.step(rigOp{K: "sclose", Side: f.Side, Par: f.Par})
 		}
